@@ -22,14 +22,15 @@ theorem appendRows_nil (rows : List Row) (g : Option Gap) : Scaffold.appendRows 
 def Item.scaffold (it : Item) : Scaffold := { it.proto with rows := it.rows }
 
 theorem foldl_fuseStep_fresh (items : List Item) (acc : List (C09.FKey × Scaffold))
-    (hnd : (items.map (·.key)).Nodup) (hdis : ∀ it ∈ items, it.key ∉ acc.map (·.1)) :
+    (hnd : (items.map (·.key)).Nodup) (hdis : ∀ it ∈ items, it.key ∉ acc.map (·.1))
+    (hadd : ∀ it ∈ items, it.add [] = it.rows) :
     items.foldl fuseStep acc = acc ++ items.map (fun it => (it.key, Item.scaffold it)) := by
   induction items generalizing acc with
   | nil => simp
   | cons it r ih =>
     simp only [List.map_cons, List.nodup_cons] at hnd
     have h0 : dGet? acc it.key = none := (Dict.dGet?_none_iff _ _).2 (hdis it (by simp))
-    simp only [List.foldl_cons, fuseStep_none acc it h0, appendRows_nil]
+    simp only [List.foldl_cons, fuseStep_none acc it h0, hadd it (by simp)]
     rw [ih _ hnd.2]
     · simp [Item.scaffold]
     · intro x hx
@@ -37,6 +38,7 @@ theorem foldl_fuseStep_fresh (items : List Item) (acc : List (C09.FKey × Scaffo
       refine ⟨hdis x (by simp [hx]), ?_⟩
       intro e
       exact hnd.1 (e ▸ List.mem_map_of_mem hx)
+    · exact fun x hx => hadd x (by simp [hx])
 
 theorem filterMap_map_some {α β γ : Type} (f : α → β) (g : β → Option γ) (h : α → γ) (l : List α)
     (hh : ∀ x ∈ l, g (f x) = some (h x)) : (l.map f).filterMap g = l.map h := by
@@ -61,13 +63,19 @@ def presItem (jg : Option Gap) (p : Piece) : Item :=
     proto := { name := p.sc.name, tag := none, haplotype := none, rank := 3,
                originalName := some p.pname, originalTags := some [] }
     rows := p.sc.rows
-    gap := fun _ => jg }
+    add := fun built => Scaffold.appendRows built p.sc.rows jg }
 
 def absItem (jg : Option Gap) (sc : Scaffold) : Item :=
   { key := (none, none, sc.name)
     proto := { name := sc.name, tag := none, haplotype := none, rank := 3, originalName := none, originalTags := none }
     rows := sc.rows
-    gap := fun built => gapBeforeLeftover jg built none }
+    add := fun built => built ++ gapsBeforeLeftover jg built none ++ sc.rows }
+
+theorem presItem_add_nil (jg : Option Gap) (p : Piece) : (presItem jg p).add [] = (presItem jg p).rows :=
+  appendRows_nil _ _
+
+theorem absItem_add_nil (jg : Option Gap) (sc : Scaffold) : (absItem jg sc).add [] = (absItem jg sc).rows := by
+  simp [absItem, gapsBeforeLeftover]
 
 theorem itemOfRes_res (b : Build) (p : Piece) (hne : p.sc.rows ≠ []) : itemOfRes b p.res = some (presItem b.joinGap p) := by
   unfold itemOfRes
@@ -82,7 +90,7 @@ theorem itemOfRes_res (b : Build) (p : Piece) (hne : p.sc.rows ≠ []) : itemOfR
 theorem itemOfExtra_absent (b : Build) (sc : Scaffold) (hne : sc.rows ≠ []) :
     itemOfExtra b (absentOut sc, none) = some (absItem b.joinGap sc) := by
   unfold itemOfExtra
-  have h1 : (absentOut sc, (none : Option (Fragment × Option Gap))).1.rows.isEmpty = false := by
+  have h1 : (absentOut sc, (none : Option (Fragment × List Gap))).1.rows.isEmpty = false := by
     show sc.rows.isEmpty = false
     cases h : sc.rows <;> simp_all
   rw [if_neg (by rw [h1]; simp)]
@@ -102,12 +110,16 @@ theorem fuseByName_unedited (input : List Scaffold) (pieces : List Piece) (err :
   rw [hstore, hextra]
   rw [filterMap_map_some Piece.res (itemOfRes b) (presItem b.joinGap) pieces
         (fun p hp => itemOfRes_res b p (hu.piecesOk p hp).wf.ne)]
-  rw [filterMap_map_some (fun sc => (absentOut sc, (none : Option (Fragment × Option Gap)))) (itemOfExtra b)
+  rw [filterMap_map_some (fun sc => (absentOut sc, (none : Option (Fragment × List Gap)))) (itemOfExtra b)
         (absItem b.joinGap) (absentOf input pieces)
         (fun sc hsc => itemOfExtra_absent b sc (hu.absent sc (absentOf_mem hsc).1 (absentOf_mem hsc).2).ne)]
   rw [foldl_fuseStep_fresh _ [] _ (by simp)]
   · simp only [List.nil_append, List.map_append, List.map_map, outScaffolds]
     rfl
+  · intro it hit
+    rcases List.mem_append.1 hit with h | h
+    · obtain ⟨p, -, rfl⟩ := List.mem_map.1 h; exact presItem_add_nil _ _
+    · obtain ⟨sc, -, rfl⟩ := List.mem_map.1 h; exact absItem_add_nil _ _
   · -- all keys different
     rw [List.map_append, List.nodup_append]
     refine ⟨?_, ?_, ?_⟩
